@@ -8,7 +8,7 @@ from pyvc.rtver import RtContract, Rope
 from pyvc.symx import (Val, I, B, SeqV, SeqI, NONE, Tup, TextV, Opaque, OutOfSubset, LoopSpec, VC, Raised,
                        int_v, un_int, kind, K_INT, K_OBJ, K_TUPLE, truthy, tup_v)
 from pyvc.fragver import md, md_owner
-from .rt_errors import call_map_index, line_of, col_of
+from .rt_errors import call_map_index, line_of, col_of, line_c, col_c, isnl
 
 mk2, (p20, p21) = tup_v(2)
 mk3, (p30, p31, p32) = tup_v(3)
@@ -19,8 +19,9 @@ vidx = Function('vidx', Val, I)       # index of a metadata object in the sequen
 
 
 def position_term(ex, cx, idx):
-    """_Position(index, line, column) with the line/column of that index"""
-    return mk3(ex.box(idx), ex.box(line_of(cx, idx)), ex.box(col_of(cx, idx)))
+    """_Position(index, line, column) with the line/column of that index; at an offset that HOLDS a line break the statement
+    leaves line and column open: there they are whatever the index->line/column map assigns (line_c / col_c)"""
+    return mk3(ex.box(idx), ex.box(line_c(cx, idx)), ex.box(col_c(cx, idx)))
 
 
 class FinalizeC(RtContract):
@@ -154,7 +155,7 @@ class FinalizeC(RtContract):
         def excerpt(ex, node, st):
             pos = ex.as_int(ex.ev(node.args[1], st))
             col = ex.as_int(ex.ev(node.args[2], st))
-            ex.safety(st, '_extract_excerpt-pre', node, And(0 <= pos, pos < cx.N, col == col_of(cx, pos)))
+            ex.safety(st, '_extract_excerpt-pre', node, And(0 <= pos, pos < cx.N, Implies(Not(isnl(cx, pos)), col == col_of(cx, pos))))
             return Rope([('opaque', 'excerpt', pos)])
         ex.call_hooks['_extract_excerpt'] = excerpt
 
